@@ -6,6 +6,7 @@ import (
 	"io"
 	"strconv"
 	"testing"
+	"time"
 
 	"github.com/pion/transport/v3/verifshim/vh"
 )
@@ -49,6 +50,11 @@ func verifRingSt(b *Buffer) string {
 
 // verifRingOp applies one textual operation to the buffer.
 func verifRingOp(b *Buffer, closed *bool, f []string) (out string) {
+	defer func() {
+		if r := recover(); r != nil {
+			out = "panic"
+		}
+	}()
 	switch f[0] {
 	case "w", "wg":
 		var p []byte
@@ -79,8 +85,14 @@ func verifRingOp(b *Buffer, closed *bool, f []string) (out string) {
 		if b.Count() == 0 && !*closed {
 			return "block" + verifOcc(b) // a Read would block: not issued
 		}
+		// a Read that finds nothing although Count() > 0 must not hang the harness
+		_ = b.SetReadDeadline(time.Now().Add(3 * time.Second))
 		n, err := b.Read(dst)
+		_ = b.SetReadDeadline(time.Time{})
+		var ne interface{ Timeout() bool }
 		switch {
+		case errors.As(err, &ne) && ne.Timeout():
+			out = "stuck"
 		case err == nil:
 			out = "ok " + verifBytesStr(dst[:n])
 		case errors.Is(err, io.ErrShortBuffer):
